@@ -4,6 +4,7 @@ CONSTANTS Names = {"x"}
           Writer = "direct"
           CacheSize = 3
           Reader = "newest"
+          Cleanup = "after"
 CONSTRAINT TraceConstraint
 POSTCONDITION TracePost
 CHECK_DEADLOCK FALSE
